@@ -450,6 +450,7 @@ pub fn run(args: &RunArgs) -> i32 {
             let js = pipeline::operation_js(&loaded[0].1, &pipeline::default_config());
             let mut cfg = crate::c01::config_with_date();
             cfg.generate.mode = nitrogql_config_file::GenerateMode::StandaloneTS4_0;
+            let cfg = pipeline::via_config_text(&cfg);
             let ts = pipeline::operation_dts(&s.schema, &loaded[0].1, &cfg, "./schema.js").buffer;
             Ok::<_, String>((js, ts))
         });
@@ -549,6 +550,7 @@ pub fn run(args: &RunArgs) -> i32 {
             let js = pipeline::operation_js(&loaded[0].1, &pipeline::default_config());
             let mut cfg = crate::c01::config_with_date();
             cfg.generate.mode = nitrogql_config_file::GenerateMode::StandaloneTS4_0;
+            let cfg = pipeline::via_config_text(&cfg);
             let ts = pipeline::operation_dts(&s.schema, &loaded[0].1, &cfg, "./schema.js").buffer;
             Ok::<_, String>((js, ts))
         });
